@@ -287,6 +287,13 @@ def representation(run):
                 back_deq = ("raises", rx.exc)
         except RaiseEx as rx:
             back, back_deq = ("raises", rx.exc), None
+        # serializing: only the standard layout may reach a state_dict
+        dest = {}
+        try:
+            E2.call(E2.getattr(a, "save_to_state_dict"), [dest, "w.", False], {})
+            E2.ps["awq_saved"] = ("value", dest)
+        except RaiseEx as rx:
+            E2.ps["awq_saved"] = ("raises", rx.exc)
         return ds, codes, sc, zp, a, da, back, back_deq
 
     try:
@@ -330,6 +337,15 @@ def representation(run):
         if back[0] == "raises":
             run.add(f"C15/conversion-back/does-not-raise/path{pi}:{back[1].tname}", r.hyps, z3.BoolVal(False), "property", inst, replay=rp)
             continue
+        sv = r.ps.get("awq_saved")
+        if sv is not None and sv[0] == "value":
+            dest = sv[1]
+            std = {"w._data._data", "w._data.bits", "w._data.size", "w._data.stride", "w._scale", "w._zeropoint", "w.qtype", "w.axis", "w.group_size", "w.size", "w.stride"}
+            extra = sorted(k for k in dest if k not in std)
+            pay = dest.get("w._data._data")
+            okp = isinstance(pay, STensor) and pay.dtype == "uint8"
+            run.add(f"C15/serialized-in-the-standard-layout/path{pi}", r.hyps, z3.BoolVal(not extra and okp), "property", inst,
+                    {"unexpected_keys": extra, "payload_dtype": getattr(pay, "dtype", None), "keys": sorted(dest)}, replay=lambda m, s: replay_save(m, s))
         cw = r.ps.get("conv_writes", [])
         run.add(f"C15/converting-back-leaves-the-awq-tensor-untouched/path{pi}", r.hyps, z3.BoolVal(not cw), "property", inst, {"writes": cw[:4]}, replay=rp_conv)
         qb = back[1]
@@ -440,6 +456,25 @@ def replay_conv(model, seed):
         after = a.dequantize()
         if not torch.equal(before, after):
             return {"what": "AWQBitsTensor.qbits_tensor() changed the AWQ tensor it converts", "shape": [o, i], "max_abs_change": (before.float() - after.float()).abs().max().item()}
+    return None
+
+
+def replay_save(model, seed):
+    import torch
+    from optimum.quanto import MaxOptimizer, qint4
+    from optimum.quanto.tensor.quantizers import AffineQuantizer
+
+    torch.manual_seed(seed)
+    A = _awq_cls()
+    w = torch.randn(8, 256, dtype=torch.float16)
+    sc, zp = MaxOptimizer()(w, bits=4, axis=0, group_size=128)
+    q = AffineQuantizer.apply(w, qint4, 0, 128, sc, zp)
+    a = A(qint4, 0, 128, q.size(), q.stride(), q._data.unpack(), q._scale, q._zeropoint)
+    d1, d2 = {}, {}
+    a.save_to_state_dict(d1, "w.", False)
+    q.save_to_state_dict(d2, "w.", False)
+    if sorted(d1) != sorted(d2) or d1["w._data._data"].dtype != torch.uint8:
+        return {"what": "an AWQBitsTensor is not serialized in the standard layout", "keys": sorted(d1), "standard_keys": sorted(d2), "payload_dtype": str(d1.get("w._data._data", torch.empty(0)).dtype)}
     return None
 
 
